@@ -18,7 +18,7 @@ static int is_custom(char k) { return k == 'S' || k == 'C' || k == 'N' || k == '
 static int is_serial_kind(char k) { return k == 'S' || k == 'I' || k == 'W' || k == 'M'; }
 static int op_is_sync(char o) { return o == 's' || o == 'B' || o == 'w' || o == 'A' || o == '3'; }
 static int op_is_barrier(char o) { return o == 'b' || o == 'B' || o == 'k'; }
-static int op_is_item(char o) { return o != 'U' && o != 'R'; }
+static int op_is_item(char o) { return o != 'U' && o != 'R' && o != 'z'; }
 static int op_iters(char o) { return o == 'A' ? 2 : o == '3' ? 3 : 0; }
 
 int qp_parse(const char *text, qprog *p)
@@ -119,6 +119,7 @@ static void do_ops(int t)
 			dispatch_async(q, b);
 			Block_release(b);
 			break; }
+		case 'z': vx_sleep_ns(1 * MS); break;     // the client pauses for 1 virtual ms
 		case 'U': dispatch_suspend(q); break;
 		case 'R': dispatch_resume(q); break;
 		default: vx_fail("bad op %c", o->op);
